@@ -19,7 +19,11 @@ import (
 	"go.opentelemetry.io/collector/component/componenttest"
 	"go.opentelemetry.io/collector/config/configretry"
 	"go.opentelemetry.io/collector/exporter/exporterhelper"
+	"go.opentelemetry.io/collector/pdata/pcommon"
 	"go.opentelemetry.io/collector/pdata/plog"
+	"go.opentelemetry.io/collector/pdata/pmetric"
+	"go.opentelemetry.io/collector/pdata/pprofile"
+	"go.opentelemetry.io/collector/pdata/ptrace"
 	"go.opentelemetry.io/collector/verifharness/sig"
 	"go.opentelemetry.io/collector/verifharness/vt"
 	"go.opentelemetry.io/collector/verifharness/xh"
@@ -37,6 +41,15 @@ type Cfg struct {
 	WFR        bool   `json:"wait_for_result"`
 	// SlowStorageUS > 0: every mutating storage operation of the persistent queue takes this long
 	SlowStorageUS int `json:"slow_storage_us,omitempty"`
+	// Signal: "" = logs; traces | metrics | profiles (the queue front differs per signal: instruments, encoding)
+	Signal string `json:"signal,omitempty"`
+}
+
+func (c Cfg) signal() string {
+	if c.Signal == "" {
+		return sig.Logs
+	}
+	return c.Signal
 }
 
 // Op is one harness action.
@@ -62,7 +75,47 @@ type Script struct {
 
 const ridKey = "rid"
 
-func payload(rid int64, n int) plog.Logs {
+// curSig is the signal of the script being run (scripts run one at a time).
+var curSig = sig.Logs
+
+// payload builds a request of the current signal: one resource entry tagged with
+// the request id and n items of uniform size under one scope (none for n == 0).
+func payload(rid int64, n int) any {
+	switch curSig {
+	case sig.Traces:
+		td := ptrace.NewTraces()
+		rs := td.ResourceSpans().AppendEmpty()
+		rs.Resource().Attributes().PutInt(ridKey, rid)
+		if n > 0 {
+			ss := rs.ScopeSpans().AppendEmpty()
+			for i := 0; i < n; i++ {
+				ss.Spans().AppendEmpty().SetName("0123456789")
+			}
+		}
+		return td
+	case sig.Metrics:
+		md := pmetric.NewMetrics()
+		rm := md.ResourceMetrics().AppendEmpty()
+		rm.Resource().Attributes().PutInt(ridKey, rid)
+		if n > 0 {
+			g := rm.ScopeMetrics().AppendEmpty().Metrics().AppendEmpty().SetEmptyGauge()
+			for i := 0; i < n; i++ {
+				g.DataPoints().AppendEmpty().SetIntValue(7)
+			}
+		}
+		return md
+	case sig.Profiles:
+		pd := pprofile.NewProfiles()
+		rp := pd.ResourceProfiles().AppendEmpty()
+		rp.Resource().Attributes().PutInt(ridKey, rid)
+		if n > 0 {
+			pr := rp.ScopeProfiles().AppendEmpty().Profiles().AppendEmpty()
+			for i := 0; i < n; i++ {
+				pr.Sample().AppendEmpty().SetLocationsLength(7)
+			}
+		}
+		return pd
+	}
 	ld := plog.NewLogs()
 	rl := ld.ResourceLogs().AppendEmpty()
 	rl.Resource().Attributes().PutInt(ridKey, rid)
@@ -76,11 +129,32 @@ func payload(rid int64, n int) plog.Logs {
 }
 
 func ridOf(v any) int64 {
-	ld := v.(plog.Logs)
-	if ld.ResourceLogs().Len() == 0 {
+	var attrs pcommon.Map
+	switch x := v.(type) {
+	case plog.Logs:
+		if x.ResourceLogs().Len() == 0 {
+			return -1
+		}
+		attrs = x.ResourceLogs().At(0).Resource().Attributes()
+	case ptrace.Traces:
+		if x.ResourceSpans().Len() == 0 {
+			return -1
+		}
+		attrs = x.ResourceSpans().At(0).Resource().Attributes()
+	case pmetric.Metrics:
+		if x.ResourceMetrics().Len() == 0 {
+			return -1
+		}
+		attrs = x.ResourceMetrics().At(0).Resource().Attributes()
+	case pprofile.Profiles:
+		if x.ResourceProfiles().Len() == 0 {
+			return -1
+		}
+		attrs = x.ResourceProfiles().At(0).Resource().Attributes()
+	default:
 		return -1
 	}
-	x, ok := ld.ResourceLogs().At(0).Resource().Attributes().Get(ridKey)
+	x, ok := attrs.Get(ridKey)
 	if !ok {
 		return -1
 	}
@@ -182,6 +256,7 @@ func (w *world) gauge(name string) (int64, bool) {
 }
 
 func newWorld(cfg Cfg) (*world, *vt.Finding) {
+	curSig = cfg.signal()
 	w := &world{cfg: cfg, tel: componenttest.NewTelemetry(), seen: map[int64]int{}, note: make(chan struct{}, 1), prods: map[int64]*producer{}, next: 1}
 	w.relaxed = cfg.WFR && cfg.Block
 	w.base = int64(sig.Size(payload(1, 0)))
@@ -209,7 +284,7 @@ func newWorld(cfg Cfg) (*world, *vt.Finding) {
 	set.TelemetrySettings = w.tel.NewTelemetrySettings()
 	r := configretry.NewDefaultBackOffConfig()
 	r.Enabled = false
-	exp, err := xh.NewExporter(sig.Logs, set, w.push, exporterhelper.WithQueue(q), exporterhelper.WithRetry(r),
+	exp, err := xh.NewExporter(curSig, set, w.push, exporterhelper.WithQueue(q), exporterhelper.WithRetry(r),
 		exporterhelper.WithTimeout(exporterhelper.TimeoutConfig{Timeout: 0}))
 	if err != nil {
 		return nil, vt.Failf("harness/new", "NewExporter: %v", err)
@@ -974,6 +1049,7 @@ func runInner(s *Script) (bool, *vt.Finding) {
 			nt = true
 		}
 	}
+	c.Class("signal:" + s.Cfg.signal())
 	c.Class("sizer:"+s.Cfg.Sizer, fmt.Sprintf("persistent:%v", s.Cfg.Persistent), fmt.Sprintf("block:%v", s.Cfg.Block), fmt.Sprintf("wfr:%v", s.Cfg.WFR))
 	return nt, nil
 }
@@ -987,6 +1063,7 @@ func gen(t *rapid.T) Script {
 		s.Cfg.WFR = rapid.IntRange(0, 3).Draw(t, "wfr") == 0
 	}
 	s.Cfg.Cap = rapid.IntRange(1, 8).Draw(t, "cap")
+	s.Cfg.Signal = rapid.SampledFrom([]string{"", "", "", "traces", "metrics", "profiles", "profiles"}).Draw(t, "signal")
 	s.Cfg.Consumers = rapid.IntRange(1, 3).Draw(t, "consumers")
 	s.Cfg.Block = rapid.Bool().Draw(t, "block")
 	maxN := s.Cfg.Cap + 2
